@@ -234,9 +234,9 @@ def rule_epochs(ctx, facts, rule):
             sites = [b for b in fn.calls(lambda t: t["callee"] == callee) if not fn.blocks[b]["cleanup"]]
         else:
             sites = sites_star(facts, fn, lambda g, t: t["callee"].endswith("SpanQueue::take_queue"))
-            if sites and all(re.search(r"bool::then$", fn.term(b)["callee"]) for b in sites):
+            if sites and all(re.search(r"bool>?::then$", fn.term(b)["callee"]) for b in sites):
                 # `(eq).then(closure)`: the closure runs only when the comparison holds
-                th = fn.calls_re(r"bool::then$", cleanup=False)
+                th = fn.calls_re(r"bool>?::then$", cleanup=False)
                 ok = bool(th) and all(any(v[0] == "binop" and v[1] == "Eq" for o in prov.of_operand(fn, fn.term(b)["args"][0]) for v in o.via) for b in th)
                 ctx.check(ok, rule, fn.path, fn.span, "SpanLine::collect hands out the scope's spans only to the handle with its epoch", "bool::then on the comparison",
                           "no epoch comparison guards the collection", extra="epoch")
